@@ -59,6 +59,11 @@ def scenarios(tier):
                         for pat in ('obedient', 'stubborn'):
                             out.append(Scenario('mix', hooks=[h1, h2], outs=[o1, o2], flags=list(flags), pat=pat,
                                                 req='start', nodet=True))
+    # two watchers in one daemon: the ignore-failure flag of one watcher's hook must not leak to the other's
+    for h in START4:
+        for order in ('lenient-first', 'strict-first'):
+            for pat in ('obedient', 'stubborn'):
+                out.append(Scenario('two', hook=h, order=order, pat=pat, nodet=True))
     return out
 
 
@@ -83,8 +88,43 @@ def _hook(world, name, outcome):
     return hook
 
 
+def _run_two(scn, ch, res):
+    world = World(ch, [])
+    world.armed = True
+    h = scn.hook
+    lenient = WSpec('len', numprocesses=1, graceful_timeout=G, behaviours=pattern(scn.pat), autostart=False,
+                    hooks={h: (_hook(world, h, 'raise'), True)})
+    strict = WSpec('str', numprocesses=1, graceful_timeout=G, behaviours=pattern(scn.pat), autostart=False,
+                   hooks={h: (_hook(world, h, 'raise'), False)})
+    specs = [lenient, strict] if scn.order == 'lenient-first' else [strict, lenient]
+    world.specs = {s.name: s for s in specs}
+    world.spec_list = specs
+    try:
+        world.boot()
+        world.run(until=lambda w: w.boot_future.done(), horizon=5)
+        for name in (s.name for s in specs):
+            world.request('start', name=name)
+            world.run(until=lambda w: w.slot() is None and not w.stopping_processes(), horizon=4 * G + 2.0)
+        world.run(horizon=G + 0.2)
+        st_len, st_str = world.watcher('len').status(), world.watcher('str').status()
+        alive_str = [p.pid for p in world.procs_of('str') if p.state in (RUNNING, ZOMBIE)]
+        res.check('C14.start_aborted', st_str == 'stopped' and not alive_str,
+                  lambda: 'watcher "str": %s raises with the ignore flag OFF, but the start was not aborted (status %r, alive %s); '
+                  'another watcher of the daemon has the same hook with the flag ON' % (h, st_str, alive_str),
+                  where='watcher.call_hook/ignore-flag-of-another-watcher')
+        res.check('C14.start_not_aborted', st_len == 'active',
+                  lambda: 'watcher "len": %s raises with the ignore flag ON, start must go on; status %r' % (h, st_len),
+                  where='watcher.call_hook')
+        res.outcome = digest([st_len, st_str, len(alive_str)])
+        return finish(world, res)
+    except Abort as e:
+        return finish(world, res, aborted=str(e))
+
+
 def run(scn, ch):
     res = Result()
+    if scn.name == 'two':
+        return _run_two(scn, ch, res)
     if scn.name == 'start4':
         names = START4
     else:
